@@ -1,11 +1,54 @@
-import NbioVerif.Model.Ws
 /-! RFC 6455 as a specification: an independent frame decoder (§5.2) and the acceptance predicate over frame
     sequences (§5.1 masking, §5.2 reserved bits/opcodes and lengths, §5.4 fragmentation, §5.5 control frames,
     §5.5.1/§7.4.1 close payload and codes, §8.1 UTF-8; RFC 7692 §6 for RSV1; plus the configured message limit).
-    Twin of `rfcTwin` in harness/cmd/hws/ref.go; the two are compared on every case (E line). -/
+    Twin of `rfcTwin` in harness/cmd/hws/ref.go; the two are compared on every case (E line).
+    This file imports nothing of the model: big-endian numbers, unmasking, UTF-8 (RFC 3629) and the close-code classes are
+    written here from the RFC texts; `Lemmas/RfcBridge.lean` proves them equal to the model's helpers. -/
 namespace Rfc
-open WsF (beDec)
-open Ws (Bytes maskSpec utf8Valid)
+
+abbrev Bytes := List UInt8
+
+/-- network byte order (§5.2 "multibyte length quantities are expressed in network byte order") -/
+def beNat (b : Bytes) : Nat := b.foldl (fun a x => a * 256 + x.toNat) 0
+
+/-- §5.3: octet i of the transformed data is octet i of the original XOR octet (i MOD 4) of the masking key;
+    `j` = index of the first octet of `b` -/
+def unmask (key : Bytes) : Nat → Bytes → Bytes
+  | _, [] => []
+  | j, x :: r => (x ^^^ key[j % 4]!) :: unmask key (j + 1) r
+
+/-! RFC 3629: a UTF-8 string is a sequence of encoded Unicode scalar values. Decode each sequence by its lead byte
+    (§3: `0xxxxxxx`, `110xxxxx 10xxxxxx`, `1110xxxx 10xxxxxx 10xxxxxx`, `11110xxx 10xxxxxx 10xxxxxx 10xxxxxx`) and
+    require the shortest form, no surrogates (U+D800–U+DFFF) and at most U+10FFFF. -/
+
+def isCont (b : UInt8) : Bool := b.toNat / 64 == 2
+
+def contVal (b : UInt8) : Nat := b.toNat % 64
+
+/-- `c` is a Unicode scalar value whose UTF-8 encoding has exactly `n` octets -/
+def scalarOk (n c : Nat) : Bool :=
+  (if n == 1 then c < 0x80 else if n == 2 then 0x80 ≤ c && c < 0x800 else if n == 3 then 0x800 ≤ c && c < 0x10000
+   else 0x10000 ≤ c && c ≤ 0x10FFFF) && !(0xD800 ≤ c && c ≤ 0xDFFF)
+
+def utf8Ok : Bytes → Bool
+  | [] => true
+  | b0 :: r =>
+    let x := b0.toNat
+    if x < 0x80 then utf8Ok r
+    else if x / 32 == 6 then
+      match r with
+      | c1 :: r => isCont c1 && scalarOk 2 (x % 32 * 64 + contVal c1) && utf8Ok r
+      | _ => false
+    else if x / 16 == 14 then
+      match r with
+      | c1 :: c2 :: r => isCont c1 && isCont c2 && scalarOk 3 ((x % 16 * 64 + contVal c1) * 64 + contVal c2) && utf8Ok r
+      | _ => false
+    else if x / 8 == 30 then
+      match r with
+      | c1 :: c2 :: c3 :: r =>
+        isCont c1 && isCont c2 && isCont c3 && scalarOk 4 (((x % 8 * 64 + contVal c1) * 64 + contVal c2) * 64 + contVal c3) && utf8Ok r
+      | _ => false
+    else false
 
 structure Frame where
   fin : Bool
@@ -35,7 +78,7 @@ def mkD1 (b : Bytes) (x0 x1 : UInt8) (declared hl : Nat) (topbit : Bool) : D1 :=
   else
     let raw := (b.drop hl).take declared
     let key := (b.drop (hl - 4)).take 4
-    .frame { f with payload := if masked then maskSpec key raw else raw } (hl + declared)
+    .frame { f with payload := if masked then unmask key 0 raw else raw } (hl + declared)
 
 /-- §5.2 base framing: decode one frame from the front of a byte string -/
 def decode1 (b : Bytes) : D1 :=
@@ -43,11 +86,11 @@ def decode1 (b : Bytes) : D1 :=
   | x0 :: x1 :: rest =>
     let l7 := x1.toNat % 128
     if l7 == 126 then
-      if rest.length < 2 then .need else mkD1 b x0 x1 (beDec (rest.take 2)) 4 false
+      if rest.length < 2 then .need else mkD1 b x0 x1 (beNat (rest.take 2)) 4 false
     else if l7 == 127 then
       if rest.length < 8 then .need
       else
-        let v := beDec (rest.take 8)
+        let v := beNat (rest.take 8)
         mkD1 b x0 x1 v 10 (v ≥ 2 ^ 63)
     else mkD1 b x0 x1 l7 2 false
   | _ => .need
@@ -61,9 +104,13 @@ def decode : Nat → Bytes → List Frame
     | .need => []
     | .frame f total => if f.partial then [f] else f :: decode fuel (b.drop total)
 
-/-- §7.4.1/§7.4.2: codes an endpoint may receive in a close frame -/
+/-- §7.4: codes an endpoint may receive in a close frame. §7.4.2: 0–999 are not used; 1000–2999 are reserved for the
+    protocol and only the codes §7.4.1 defines may appear, of which 1004 is reserved and 1005, 1006 and 1015 "MUST NOT be
+    set as a status code in a Close control frame"; 1012–1014 and 1016–2999 are not defined by RFC 6455; 3000–3999
+    (registered) and 4000–4999 (private) are allowed; anything above is out of range. -/
 def closeCodeOk (c : Nat) : Bool :=
-  (1000 ≤ c && c ≤ 1003) || (1007 ≤ c && c ≤ 1011) || (3000 ≤ c && c ≤ 4999)
+  1000 ≤ c && c ≤ 4999 && c != 1004 && c != 1005 && c != 1006 && c != 1015 &&
+    !(1012 ≤ c && c ≤ 1014) && !(1016 ≤ c && c ≤ 2999)
 
 inductive Reason | len63 | rsv | opcode | mask | ctlFrag | ctlLen | contNoStart | dataInFrag | tooBig
                  | closeLen | closeCode | closeUtf8 | inflate | utf8
@@ -135,8 +182,8 @@ def run (g : Cfg) : St → Nat → List Ev → List Frame → Res
         let p := f.payload
         if p.length == 0 then { verdict := .closed, at_ := i, evs := evs ++ [.close []] }
         else if p.length == 1 then { verdict := .reject .closeLen, at_ := i, evs }
-        else if !closeCodeOk (beDec (p.take 2)) then { verdict := .reject .closeCode, at_ := i, evs }
-        else if !utf8Valid (p.drop 2) then { verdict := .reject .closeUtf8, at_ := i, evs }
+        else if !closeCodeOk (beNat (p.take 2)) then { verdict := .reject .closeCode, at_ := i, evs }
+        else if !utf8Ok (p.drop 2) then { verdict := .reject .closeUtf8, at_ := i, evs }
         else { verdict := .closed, at_ := i, evs := evs ++ [.close p] }
       else
         let s : St := if f.op != 0 then { inMsg := true, typ := f.op, comp := f.r1, acc := [] } else s
@@ -148,7 +195,7 @@ def run (g : Cfg) : St → Nat → List Ev → List Frame → Res
           | .big => { verdict := .reject .tooBig, at_ := i, evs }
           | .err => { verdict := .reject .inflate, at_ := i, evs }
           | .ok msg =>
-            if s.typ == 1 && !utf8Valid msg then { verdict := .reject .utf8, at_ := i, evs }
+            if s.typ == 1 && !utf8Ok msg then { verdict := .reject .utf8, at_ := i, evs }
             else run g {} (i + 1) (evs ++ [.deliver s.typ msg]) fs
 
 end Rfc
